@@ -21,6 +21,8 @@ type cmp struct {
 	file  string
 	// semantic: also check resolution results
 	sem bool
+	// lenientDouble: a double may come back as an integer literal of equal value (dump -> parse)
+	lenientDouble bool
 }
 
 func (c *cmp) add(site, where, f string, a ...interface{}) {
@@ -116,7 +118,11 @@ func (c *cmp) value(site, where string, want *Value, got *parser.ConstValue) {
 			c.add(site+".int.value", where, "want %d got %d", want.Int, *tv.Int)
 		}
 	case VDouble:
-		if got.Type != parser.ConstType_ConstDouble || tv.Double == nil {
+		if c.lenientDouble && got.Type == parser.ConstType_ConstInt && tv.Int != nil {
+			if float64(*tv.Int) != want.Dbl {
+				c.add(site+".double.value", where, "written %s = %v, re-read as integer %d", want.DblTxt, want.Dbl, *tv.Int)
+			}
+		} else if got.Type != parser.ConstType_ConstDouble || tv.Double == nil {
 			c.add(site+".double.kind", where, "want double %s, got %v", want.DblTxt, got.Type)
 		} else if math.Float64bits(*tv.Double) != math.Float64bits(want.Dbl) {
 			c.add(site+".double.value", where, "written %s = %v, got %v", want.DblTxt, want.Dbl, *tv.Double)
@@ -204,6 +210,14 @@ func (c *cmp) fields(site, where string, owner *Def, kind string, want []*Field,
 	for i := range want {
 		c.field(site, where, owner, kind, want[i], got[i])
 	}
+}
+
+// CompareDumped compares the AST obtained by parsing dumped IDL text with the model: like
+// CompareAST, but a double may have been written as an integer literal of equal value.
+func CompareDumped(f *File, ast *parser.Thrift) []Diff {
+	c := &cmp{file: f.Path, lenientDouble: true}
+	c.compare(f, ast)
+	return c.diffs
 }
 
 // CompareAST compares the AST thriftgo produced for one file with the model (C3.1).
